@@ -109,6 +109,12 @@ fn check_other_kind(t: &mut Tally, p: &str, names: &[String]) {
     if mpat::matches(p, "", LetterWeight::Rank).is_none() {
         return; // does not compile in the model: compile verdicts are C02/C04's business
     }
+    // '**' is outside the modelled glob subset, also when it only arises after brace expansion
+    match mc_core::model::brace::expand(p, 4096) {
+        Some(ex) if ex.iter().any(|e| e.contains("**")) => return,
+        None => return,
+        _ => {}
+    }
     let pat = match guard(|| Pattern::new(p)) {
         Ok(Ok(x)) => x,
         _ => return,
